@@ -371,6 +371,13 @@ def _render_item(r, it, mode, in_opt):
             # outside optional-argument content brackets are ordinary characters
             return [('c', '[', mode)] + inner + [('c', ']', mode)]
         return [('g', '[', ']', _finish_list(inner), mode)]
+    if k == 'Br':
+        r.emit('[')
+        r.emit('b')
+        r.emit(']')
+        if in_opt:
+            return [('g', '[', ']', (('c', 'b', mode),), mode)]
+        return [('c', '[b]', mode)]
     if k == 'BOB':
         r.emit('{')
         r.emit('[')
@@ -503,7 +510,7 @@ def _render_args(r, slots, values, mode, in_opt=False):
             r.boundary('arg-o')
             o, c = v[1], v[2]
             r.emit(o)
-            inner = _render_list(r, v[3], amode, 'group', False)
+            inner = _render_list(r, v[3], amode, 'group', o == '[')
             r.emit(c)
             args.append(('g', o, c, _finish_list(inner), amode))
         elif kind == 'v':
@@ -548,11 +555,16 @@ class Grammar(object):
         self._memo = {}
 
     # ---- leaves
-    def leaves(self, math, in_opt, first, prev_t):
+    def leaves(self, math, in_opt, first, prev_t, br_first=False):
         sig = self.sig
         out = [('T', 'a')]
         if self.minimal:
-            return out + [('Sym', sig['syms'][0])]
+            out = out + [('Sym', sig['syms'][0])]
+            if in_opt and (first or prev_t):
+                out.append(('BOB',))
+            if (not in_opt) and (prev_t or (first and br_first)) and self.ctx != 'C':
+                out.append(('Br',))
+            return out
         for s in sig['syms']:
             if self.ctx == 'A0' or s not in sig['unknown'] or self.ctx == 'A':
                 out.append(('Sym', s))
@@ -570,6 +582,9 @@ class Grammar(object):
                 out.append(('VEnv', name, 'xy' if self.inert_verbatim else 'x{%'))
         if in_opt and (first or prev_t):
             out.append(('BOB',))
+        if (not in_opt) and (prev_t or (first and br_first)) and self.ctx != 'C':
+            # bracketed text after text, outside optional-argument content: ordinary characters at any depth
+            out.append(('Br',))
         return out
 
     def arg_value_menus(self, slots):
@@ -618,12 +633,12 @@ class Grammar(object):
         hole descriptor = (math flag, in_opt flag)."""
         sig = self.sig
         out = []
-        out.append((lambda f: ('G', f[0]), [(math, False)]))
+        out.append((lambda f: ('G', f[0]), [(math, False, True)]))
         if in_opt and (first or prev_t):
-            out.append((lambda f: ('NB', f[0]), [(math, True)]))
-        if not math:
+            out.append((lambda f: ('NB', f[0]), [(math, True, False)]))
+        if not math and not (self.minimal and self.calls is not None and 'MATH' not in self.calls):
             for o in ('$', '\\(', '$$', '\\['):
-                out.append((lambda f, o=o: ('Math', o, f[0]), [(True, False)]))
+                out.append((lambda f, o=o: ('Math', o, f[0]), [(True, False, True)]))
         for name, slots in sorted(sig['macros'].items()):
             if self.calls is not None and name not in self.calls:
                 continue
@@ -641,7 +656,7 @@ class Grammar(object):
                             amath = False
                         elif sl['mode'] == 'math':
                             amath = True
-                        holes.append((amath, sl['kind'] in ('o',)))
+                        holes.append((amath, sl['kind'] in ('o',) or (sl['kind'] == 'any' and val[1] == '['), sl['kind'] == 'm'))
 
                 def build(f, name=name, combo=combo):
                     vals = []
@@ -668,8 +683,8 @@ class Grammar(object):
                     holes = []
                     for sl, (val, nh) in zip(env['sig'], combo):
                         if nh:
-                            holes.append((math, sl['kind'] == 'o'))
-                    holes.append((env['body'] == 'math', False))
+                            holes.append((math, sl['kind'] == 'o', sl['kind'] == 'm'))
+                    holes.append((env['body'] == 'math', False, False))
 
                     def build(f, name=name, combo=combo):
                         vals = []
@@ -684,41 +699,41 @@ class Grammar(object):
                     out.append((build, holes))
         return out
 
-    def items(self, n, math, in_opt, first, prev_t):
+    def items(self, n, math, in_opt, first, prev_t, br_first=False):
         """All items of exact size n."""
-        key = ('i', n, math, in_opt, first and in_opt, prev_t and in_opt)
+        key = ('i', n, math, in_opt, first and (in_opt or br_first), prev_t, br_first and first)
         if key in self._memo:
             return self._memo[key]
         res = []
         if n == 1:
-            res.extend(self.leaves(math, in_opt, first, prev_t))
+            res.extend(self.leaves(math, in_opt, first, prev_t, br_first))
         for build, holes in self.shapes(math, in_opt, first, prev_t):
             # distribute n-1 over the holes
             for sizes in _compositions(n - 1, len(holes)):
-                lists = [self.lists(sz, hm, ho) for sz, (hm, ho) in zip(sizes, holes)]
+                lists = [self.lists(sz, hm, ho, hb) for sz, (hm, ho, hb) in zip(sizes, holes)]
                 for fills in itertools.product(*lists):
                     res.append(build(fills))
         self._memo[key] = res
         return res
 
-    def lists(self, n, math, in_opt):
+    def lists(self, n, math, in_opt, br_first=False):
         """All item lists of exact total size n (tuples)."""
-        key = ('l', n, math, in_opt)
+        key = ('l', n, math, in_opt, br_first)
         if key in self._memo:
             return self._memo[key]
-        res = self._lists(n, math, in_opt, True, False)
+        res = self._lists(n, math, in_opt, True, False, br_first)
         self._memo[key] = res
         return res
 
-    def _lists(self, n, math, in_opt, first, prev_t):
+    def _lists(self, n, math, in_opt, first, prev_t, br_first=False):
         if n == 0:
             return [()]
         res = []
         for i in range(1, n + 1):
-            for it in self.items(i, math, in_opt, first, prev_t):
+            for it in self.items(i, math, in_opt, first, prev_t, br_first):
                 if prev_t and it[0] == 'T':
                     continue        # adjacent text is one text item
-                for rest in self._lists(n - i, math, in_opt, False, it[0] == 'T'):
+                for rest in self._lists(n - i, math, in_opt, False, it[0] in ('T', 'Br'), br_first):
                     res.append((it,) + rest)
         return res
 
@@ -910,6 +925,9 @@ PROFILES = {
         dict(ctx='D', size=2, cmax=1, d=1),
         dict(ctx='A', size=3, cmax=0, d=0),
         dict(ctx='D', size=3, cmax=0, d=0),
+        # deep nesting of a few calls (optional / delimited arguments inside arguments inside arguments)
+        dict(ctx='A', size=4, cmax=1, d=0, calls=['mo', 'mm'], minimal=True),
+        dict(ctx='D', size=4, cmax=1, d=0, calls=['sqrt', 'textbf'], minimal=True),
     ],
     'thorough': [
         dict(ctx='A', size=1, cmax=99, d=3),
@@ -925,6 +943,8 @@ PROFILES = {
         dict(ctx='D', size=3, cmax=0, d=1),
         dict(ctx='A', size=4, cmax=0, d=0),
         dict(ctx='D', size=4, cmax=0, d=0),
+        dict(ctx='A', size=5, cmax=1, d=0, calls=['mo', 'mm'], minimal=True),
+        dict(ctx='D', size=5, cmax=1, d=0, calls=['sqrt', 'textbf'], minimal=True),
     ],
 }
 NSLICES = 48
@@ -933,9 +953,10 @@ _DOCLISTS = {}
 
 def doc_lists(prof):
     """Materialised list of all derivations of the profile (sizes <= 3)."""
-    key = (prof['ctx'], prof['size'], prof['cmax'], prof.get('inert', False))
+    key = (prof['ctx'], prof['size'], prof['cmax'], prof.get('inert', False), tuple(prof.get('calls') or ()), prof.get('minimal', False))
     if key not in _DOCLISTS:
-        g = Grammar(prof['ctx'], cmax=prof['cmax'], inert_verbatim=prof.get('inert', False))
+        g = Grammar(prof['ctx'], cmax=prof['cmax'], inert_verbatim=prof.get('inert', False),
+                    calls=set(prof['calls']) if prof.get('calls') else None, minimal=prof.get('minimal', False))
         L = []
         for n in range(0, prof['size'] + 1):
             L.extend(g.lists(n, False, False))
@@ -945,13 +966,14 @@ def doc_lists(prof):
 
 def iter_doc_slice(prof, k):
     """The k-th of NSLICES slices of the profile's derivations (index modulo NSLICES)."""
-    if prof['size'] <= 3:
+    if prof['size'] <= 3 or (prof.get('minimal') and prof['size'] <= 4):
         L = doc_lists(prof)
         for idx in range(k, len(L), NSLICES):
             yield L[idx]
         return
     # large profiles: enumerate the top level lazily (nested lists of size <= 3 are memoised)
-    g = Grammar(prof['ctx'], cmax=prof['cmax'], inert_verbatim=prof.get('inert', False))
+    g = Grammar(prof['ctx'], cmax=prof['cmax'], inert_verbatim=prof.get('inert', False),
+                calls=set(prof['calls']) if prof.get('calls') else None, minimal=prof.get('minimal', False))
     idx = 0
     for n in range(0, prof['size'] + 1):
         for items in g.iter_lists_lazy(n):
@@ -1007,9 +1029,10 @@ def shards(tier, purpose=None):
 def describe(tier, purpose=None):
     parts = []
     for p in profiles(tier, purpose):
-        parts.append('ctx %s: all derivations of size <= %d with <= %s non-default argument forms per call, '
+        parts.append('ctx %s%s: all derivations of size <= %d with <= %s non-default argument forms per call, '
                      'x all placements of <= %d whitespace/comment deviations'
-                     % (p['ctx'], p['size'], p['cmax'] if p['cmax'] < 99 else 'any number of', p['d']))
+                     % (p['ctx'], (' restricted to calls %s and minimal leaves' % ','.join(p['calls'])) if p.get('calls') else '',
+                        p['size'], p['cmax'] if p['cmax'] < 99 else 'any number of', p['d']))
     return 'generated documents (mc/docgen.py): ' + '; '.join(parts)
 
 
